@@ -594,6 +594,20 @@ func checkOneInterceptedParse(t *fw.T, src string, rd *gen.Rendered, s *icStack,
 			}
 		}
 	}
+	if s.nTok > 0 && (rd == nil || base.Err != nil) {
+		// without a token table (malformed input, hostile starts such as a byte order mark): the lexer stands, on entry, where
+		// the token that next() then returns begins (that tokens begin at their first byte is C10's clause)
+		for _, e := range run.events {
+			if e.kind != 't' {
+				continue
+			}
+			if e.lxLine != e.ret.Start.Line || e.lxCol != e.ret.Start.Column {
+				t.Violate("token-lexer-position", "entry position differs from the start of the returned token/"+classOf(e.ret.Type), fmt.Sprintf("token interceptor #%d entered with the lexer at %d:%d on %q, the token that next() returned (%v %q) begins at %v: %q", e.idx, e.lxLine, e.lxCol, e.lxChar, e.ret.Type, clip(e.ret.Literal, 20), e.ret.Start, clip(src, 160)), wit())
+				return false
+			}
+		}
+		t.Count("token_steps_checked_against_the_returned_token", 1)
+	}
 	if rd == nil || base.Err != nil {
 		return true
 	}
@@ -647,7 +661,7 @@ func checkOneInterceptedParse(t *fw.T, src string, rd *gen.Rendered, s *icStack,
 			}
 		}
 	}
-	if s.nTok > 0 {
+	if s.nTok > 0 && rd != nil {
 		// lexer positioned on the first byte of the token that next() returns (ground truth: renderer token table)
 		k := 0
 		for _, e := range run.events {
